@@ -464,8 +464,8 @@ def s_b2d(group):
         case["sequence"] = make_it_sweep(lat, case["sequence"], case["opts"])
         if mode in SEEDED:
             case["seed"] = draw(st.integers(0, 2**31 - 1))
-        if mode in ("mps", "projector2d") and not case["opts"].get("compress_late", True) is False and draw(st.integers(0, 4)) == 0:
-            case["max_bond_none"] = True  # documented: None leaves truncation to the cutoff alone
+        if mode in ("mps", "projector2d") and draw(st.integers(0, 4)) == 0:
+            case["max_bond_none"] = True  # documented default: None leaves truncation to the cutoff alone
         return case
 
     return lambda tier: strat(tier)
@@ -499,8 +499,6 @@ def run_b2d(case):
     ref, mag = reference(tn)
     chi = None if case.get("max_bond_none") else chi_exact(lat) + int(case["chi_extra"])
     kw = boundary_kwargs(case)
-    if mode == "mps" and chi is None and kw.get("compress_late") is False:
-        kw.pop("compress_late")  # the early branch compares bond sizes with max_bond
     with rejecting(*accepted_refusals(mode), tag="unsupported:"):
         res = tn.contract_boundary(max_bond=chi, cutoff=0.0, mode=mode, sequence=case["sequence"],
                                    final_contract=case["final_contract"], inplace=case["inplace"], **kw)
@@ -553,11 +551,12 @@ def shares_bond(ta, tb):
     return any(ix in tb.inds for ix in ta.inds)
 
 
-def boundary_line_bonds(tn, ndim=2):
+def boundary_line_bonds(tn, ndim=2, wrap_dims=None):
     """Bonds that lie *along* a boundary: pairs of adjacent tensors that both hold >= 2 original sites in the direction
     perpendicular to the bond and exactly the same extent in every other direction (so they were produced by the same
-    inward sweeps).  Returns [(size, coordsA, coordsB)].  Bonds between a boundary and the bulk / the opposite boundary
-    (never compressed) are not listed."""
+    inward sweeps).  Returns [(size, coordsA, coordsB, wrapped)].  Bonds between a boundary and the bulk / the opposite
+    boundary (never compressed) are not listed.  `wrap_dims` = {axis: L} for periodic directions: the bond closing the
+    ring of a periodic boundary is listed too (wrapped=True)."""
     ts = [(t, site_coords(t, ndim)) for t in tn]
     ts = [(t, c) for t, c in ts if c]
     out = []
@@ -575,22 +574,30 @@ def boundary_line_bonds(tn, ndim=2):
             if len(diff) != 1:
                 continue
             d = diff[0]
-            # adjacent (not wrapped) along d, identical elsewhere, and thick (>= 2 merged sites) in some other direction
-            if not (exts_a[d][-1] + 1 == exts_b[d][0] or exts_b[d][-1] + 1 == exts_a[d][0]):
+            # adjacent along d (directly, or across the periodic seam), identical elsewhere, and thick (>= 2 merged
+            # sites) in some other direction
+            direct = exts_a[d][-1] + 1 == exts_b[d][0] or exts_b[d][-1] + 1 == exts_a[d][0]
+            wrapped = False
+            if not direct and wrap_dims and d in wrap_dims:
+                L = wrap_dims[d]
+                wrapped = (exts_a[d][-1] == L - 1 and exts_b[d][0] == 0) or (exts_b[d][-1] == L - 1 and exts_a[d][0] == 0)
+            if not (direct or wrapped):
                 continue
             if max(len(exts_a[k]) for k in range(ndim) if k != d) < 2:
                 continue
-            out.append((bond_size(ta, tb), sorted(ca), sorted(cb)))
+            out.append((bond_size(ta, tb), sorted(ca), sorted(cb), wrapped))
     return out
 
 
-def check_cap(tn, chi, ndim=2, **info):
-    bonds = boundary_line_bonds(tn, ndim)
+def check_cap(tn, chi, ndim=2, wrap_dims=None, **info):
+    bonds = boundary_line_bonds(tn, ndim, wrap_dims)
     worst = 0
-    for size, ca, cb in bonds:
+    # (direct neighbours first, so that a violation on the seam is reported as such only when everything else holds)
+    for size, ca, cb, wrapped in sorted(bonds, key=lambda b: b[3]):
         worst = max(worst, size)
         if size > chi:
-            raise Violation("bond-cap", size=int(size), cap=int(chi), **info)
+            raise Violation("bond-cap", size=int(size), cap=int(chi), **(dict(info, wrap=True) if wrap_dims is not None and wrapped
+                                                                        else dict(info, wrap=False) if wrap_dims is not None else info))
     return len(bonds), worst
 
 
@@ -663,10 +670,23 @@ def whole_lattice(case, lat):
 
 
 @st.composite
+def s_flip(draw, rng):
+    """Ranges are accepted in either order (Rotator2D / gen_pairs sort them): hand over a descending one now and then."""
+    if rng is not None and draw(st.integers(0, 3)) == 0:
+        return [rng[1], rng[0]]
+    return rng
+
+
+def descending(case):
+    return any(r is not None and r[0] > r[1] for r in (case.get("xrange"), case.get("yrange"), case.get("zrange")))
+
+
+@st.composite
 def s_from_side(draw, tier):
     mode, lat = draw(s_mode_lat(tier))
     fw = draw(st.sampled_from(DIRS2))
     xr, yr = draw(s_patch(lat, fw))
+    xr, yr = draw(s_flip(xr)), draw(s_flip(yr))
     case = {"lat": lat, "mode": mode, "from_which": fw, "xrange": xr, "yrange": yr, "opts": draw(s_side_opts(mode, lat)),
             "spelling": draw(st.sampled_from(["named", "named", "named_", "generic", "generic_"])),
             "chi_extra": draw(st.sampled_from([0, 0, 3]))}
@@ -861,6 +881,7 @@ def s_cap_side(draw, tier, modes=None):
         lat["cx"] = lat["cy"] = False
     fw = draw(st.sampled_from(DIRS2))
     xr, yr = draw(s_patch(lat, fw))
+    xr, yr = draw(s_flip(xr)), draw(s_flip(yr))
     o = draw(s_side_opts(mode, lat))
     case = {"lat": lat, "mode": mode, "from_which": fw, "xrange": xr, "yrange": yr, "opts": o,
             "spelling": draw(st.sampled_from(["named", "named_", "generic_"])), "chi_frac": draw(st.floats(0.0, 1.0)),
@@ -883,14 +904,16 @@ def run_cap_side(case):
     if not isinstance(res, Q().TensorNetwork):
         raise Violation("returned-none" if res is None else "not-a-network", mode=mode, spelling=case["spelling"])
     # the handed-over boundary: the line of merged tensors at the far end of the sweep, inside the patch
-    nb, worst = check_cap(res, chi, entry="from_side", mode=mode, from_which=case["from_which"],
-                          layered=lat.get("layers", 1) == 2, cyclic=bool(lat.get("cx") or lat.get("cy")))
+    wrap_dims = {d: L for d, L, c in ((0, lat["Lx"], lat.get("cx")), (1, lat["Ly"], lat.get("cy"))) if c}
+    nb, worst = check_cap(res, chi, wrap_dims=wrap_dims, entry="from_side", mode=mode, from_which=case["from_which"],
+                          layered=lat.get("layers", 1) == 2, cyclic=bool(lat.get("cx") or lat.get("cy")),
+                          descending=descending(case))
     if nb == 0:
         raise Violation("no-boundary-found", mode=mode)  # the sweep must have merged the rows of the patch
     check_handover(res, case, lat, mode=mode, entry="from_side", from_which=case["from_which"], layered=lat.get("layers", 1) == 2)
     cls = lat_classes(lat) + ["mode=" + mode, "from=" + case["from_which"], "rows=%d" % n, "chi/exact=%.1f" % (round(4 * chi / exact) / 4),
                               "cutoff=%g" % case["cutoff"], "saturated" if worst == chi else "below"]
-    cls += ["opt:" + k for k in sorted(case["opts"])]
+    cls += ["opt:" + k for k in sorted(case["opts"])] + (["descending-range"] if descending(case) else [])
     return {"nt": True, "cls": cls, "err": 0.0}
 
 
@@ -1495,7 +1518,9 @@ def s_side3d(draw, tier):
     return {"lat": lat, "mode": mode, "from_which": fw, "opts": o, "spelling": draw(st.sampled_from(["plain", "inplace", "inplace"])),
             "entry": entry, "nplanes": L[fw[0]] if (full or L[fw[0]] == 2) and mode not in BP_MODES else L[fw[0]] - 1,
             "binding": draw(st.integers(0, 2)) == 0, "chi_frac": draw(st.floats(0.0, 1.0)),
-            "auto_side": draw(st.integers(0, 3)) == 0}
+            "auto_side": draw(st.integers(0, 3)) == 0,
+            # ranges across the sweep handed over in descending order (accepted: Rotator3D / gen_pairs sort them)
+            "flip": [draw(st.integers(0, 3)) == 0 for _ in range(3)]}
 
 
 def run_side3d(case):
@@ -1509,13 +1534,18 @@ def run_side3d(case):
     rng = {d: (0, L[d] - 1) for d in "xyz"}
     entry = case["entry"]
     n = int(case["nplanes"])
+    desc = False
     if entry == "from":
         rng[fw[0]] = (0, n - 1) if fw.endswith("min") else (L[fw[0]] - n, L[fw[0]] - 1)
+        for d, f in zip("xyz", case.get("flip") or [False] * 3):
+            if f and d != fw[0] and L[d] >= 2:
+                rng[d] = (rng[d][1], rng[d][0])
+                desc = True
     binding = bool(case["binding"]) and lat["D"] >= 2 and entry == "from"
     chi = binding_chi(case["chi_frac"], lat["D"] ** n) if binding else chi_exact(lat)
     cutoff = 1e-10 if binding else 0.0
     e, nb = 0.0, 0
-    info = dict(entry="3d:" + entry, mode=mode, from_which=fw, eq=bool(o.get("equalize_norms")))
+    info = dict(entry="3d:" + entry, mode=mode, from_which=fw, eq=bool(o.get("equalize_norms")), descending=desc)
     if entry == "from":
         fn = tn.contract_boundary_from_ if case["spelling"] == "inplace" else tn.contract_boundary_from
         res = fn(rng["x"], rng["y"], rng["z"], fw, max_bond=chi, cutoff=cutoff, mode=mode, **o)
@@ -1653,17 +1683,23 @@ def run_rg3d(case):
 # ---------------------------------------------------------------------------
 
 @st.composite
-def s_graph(draw, tier, min_n=3, max_n=None, phys="some", layered=False, dims=(1, 2, 2, 2, 3), extra=3):
+def s_graph(draw, tier, min_n=3, max_n=None, phys="some", layered=False, dims=(1, 2, 2, 2, 3), extra=3, forest=False):
     """Connected graph (random-parent tree + extra distinct edges) with a bond size per edge, optional dangling
     indices and -- for the site-grouping compressors -- optionally two tensors ('layers') per site."""
     if max_n is None:
         max_n = 7 if tier == "quick" else 9
     n = draw(st.integers(min_n, max_n))
     edges = [[draw(st.integers(0, i - 1)), i] for i in range(1, n)]
+    cut = None
+    if forest and n >= 4 and draw(st.integers(0, 3)) == 0:
+        # a second connected component: tensors >= cut hang on each other only (site 0 stays in the first component)
+        cut = draw(st.integers(2, n - 2))
+        edges = [[a, b] for a, b in edges if b != cut]
+        edges = [[(cut + (a - cut) % (b - cut) if b > cut and a < cut else a), b] for a, b in edges]
     have = {tuple(e) for e in edges}
     for _ in range(draw(st.integers(0, extra))):
         a, b = draw(st.integers(0, n - 1)), draw(st.integers(0, n - 1))
-        if a != b and (min(a, b), max(a, b)) not in have:
+        if a != b and (min(a, b), max(a, b)) not in have and (cut is None or (a < cut) == (b < cut)):
             have.add((min(a, b), max(a, b)))
             edges.append([min(a, b), max(a, b)])
     g = {"n": n, "edges": edges, "dims": [draw(st.sampled_from(dims)) for _ in edges],
@@ -1711,6 +1747,19 @@ def build_graph(g):
     if g.get("exponent"):
         tn.exponent = float(g["exponent"])
     return tn
+
+
+def graph_components(g):
+    comp = list(range(int(g["n"])))
+
+    def find(i):
+        while comp[i] != i:
+            i = comp[i]
+        return i
+
+    for a, b in g["edges"]:
+        comp[find(a)] = find(b)
+    return len({find(i) for i in range(int(g["n"]))})
 
 
 def graph_outer(g):
@@ -1990,7 +2039,10 @@ AG_METHODS = ["local-early", "local-late", "projector", "su", "superorthogonal",
 def s_ag(draw, tier):
     method = draw(st.sampled_from(AG_METHODS))
     bp = method in ("su", "superorthogonal", "l2bp")
-    g = draw(s_graph(tier, min_n=3, max_n=6, phys="all" if bp else "some", layered=True, dims=(1, 2, 2, 2, 3), extra=2))
+    # (methods that gauge with simple-update / BP weights get a dangling index on every site: on a closed loopy network
+    # those weights are arbitrarily ill conditioned, see ASSUMPTIONS; 'projector' gauges by default)
+    g = draw(s_graph(tier, min_n=3, max_n=6, phys="all" if (bp or method == "projector") else "some", layered=True,
+                     dims=(1, 2, 2, 2, 3), extra=2, forest=True))
     o = {}
     if draw(st.booleans()):
         o["canonize"] = draw(st.booleans())
@@ -2042,7 +2094,7 @@ def run_ag(case):
     if case["inplace"] and res is not tn:
         raise Violation("inplace-new-object", method=method)
     info = dict(entry="ag_compress:" + entry, method=method, canonize=repr(o.get("canonize", True)), eq=bool(o.get("equalize_norms")),
-                lazy=bool(o.get("lazy")))
+                lazy=bool(o.get("lazy")), disconnected=graph_components(g) > 1)
     if not o.get("lazy"):
         if res.num_tensors != n:
             raise Violation("one-tensor-per-site", got=res.num_tensors, want=n, **info)
@@ -2055,7 +2107,8 @@ def run_ag(case):
         e = check_value(denote(res, outer), ref, mag, **info)
     if set(res.outer_inds()) != set(outer):
         raise Violation("outer-labels-changed", **info)
-    cls = graph_classes(g) + ["method=" + method, "entry=" + entry, "binding" if binding else "exact", "two-layer=%d" % min(sum(g["two"]), 3)]
+    cls = graph_classes(g) + ["method=" + method, "entry=" + entry, "binding" if binding else "exact", "two-layer=%d" % min(sum(g["two"]), 3),
+                              "components=%d" % graph_components(g)]
     cls += ["opt:%s=%s" % (k2, o[k2]) if k2 == "canonize" else "opt:" + k2 for k2 in sorted(o)]
     return {"nt": full >= 2 and (sum(g["two"]) > 0 or len(g["edges"]) >= n), "cls": cls, "err": e}
 
